@@ -646,6 +646,17 @@ type run struct {
 	notes []*Notification
 }
 
+// safely converts a panic in the engine (a fakepg bug) into SQLSTATE XXBUG
+// instead of taking the whole test process down.
+func (r *run) safely(f func() (*result, *pgErr)) (res *result, perr *pgErr) {
+	defer func() {
+		if p := recover(); p != nil {
+			res, perr = nil, errf("XXBUG", "fakepg: internal error: %v", p)
+		}
+	}()
+	return f()
+}
+
 func (r *run) emit(e effect) *pgErr {
 	if perr := r.db.apply(e, true); perr != nil {
 		return perr
@@ -1058,14 +1069,6 @@ func (r *run) del(t *table, drop func(row) bool) (*result, *pgErr) {
 		}
 	}
 	return &result{tag: fmt.Sprintf("DELETE %d", len(ids)), n: len(ids)}, r.emit(effect{kind: 'd', table: t.name, ids: ids})
-}
-
-func pick(v []Value, pos []int) []Value {
-	out := make([]Value, len(pos))
-	for i, p := range pos {
-		out[i] = v[p]
-	}
-	return out
 }
 
 func (r *run) prune(t *table, pr *prune) (*result, *pgErr) {
